@@ -13,6 +13,8 @@ d="$1"; mkdir -p "$d"
 [ -d "$d/repo" ] || git -C /repo worktree add --detach "$d/repo" HEAD >/dev/null
 # follow /repo's HEAD (the worktree is only ever modified by applying and reverting patches)
 if git -C "$d/repo" diff --quiet; then git -C "$d/repo" checkout -q --detach "$(git -C /repo rev-parse HEAD)"; fi
-rsync -a --delete --exclude target --exclude replays --exclude .git /verif/ "$d/verif/"
+# no -t: a changed file gets the time of the copy, so cargo (mtime fingerprints) rebuilds it even when
+# the scratch build is newer than the edit in /verif
+rsync -rlpD --checksum --delete --exclude target --exclude replays --exclude .git /verif/ "$d/verif/"
 sed -i "s#\"/repo/#\"$d/repo/#g" "$d/verif/sim/wfsim/Cargo.toml" "$d/verif/sim-miri/Cargo.toml" "$d/verif/sim-miri-rayon/Cargo.toml"
 echo "$d"
